@@ -3,6 +3,13 @@
    every written member is a total function of the cell coordinates c0 c1 c2.  `_rms` is not modelled. *)
 From Coq Require Import List ZArith Bool.
 From Inovesa Require Import Base.FieldKit Base.Sums Model.MomentsIR.
+Import ListNotations.
+(* extents of the member arrays (constructor mem-initialisers; boost::multi_array is row-major) *)
+Definition gen_extents_data (nb nx ny : Z) : list Z := [nb; nx; ny]%Z.
+Definition gen_extents_projection (nb nx ny : Z) : list Z := [2; nb; nx]%Z.
+Definition gen_extents_moment (nb nx ny : Z) : list Z := [2; 4; nb]%Z.
+Definition gen_extents_rms (nb nx ny : Z) : list Z := [2; nb]%Z.
+Definition gen_extents_filling (nb nx ny : Z) : list Z := [nb]%Z.
 Section Gen.
   Variable K : Fld.
   Local Open Scope F_scope.
